@@ -323,6 +323,33 @@ def run(facts, tier):
             s6.examined(n["name"], True, {"stable_routine": n["name"][:140]})
     rules.append(s6.finish())
 
+    # ---------------- T8.7 comparisons of numbers look at both numbers
+    t7 = Rule("T8.7", "`Ord` and `PartialEq` for numbers decide every pair of representations from both values: no arm ignores the payload of an operand it matches "
+              "(a shortcut such as `a big integer is larger than any machine integer` is wrong for small values that are stored as big integers)", floor=18)
+    for trait_, meth in (("core::cmp::Ord", "cmp"), ("core::cmp::PartialEq", "eq")):
+        fn_ = facts.hir_fn(f"<{NUM} as {trait_}>::{meth}")
+        mm = top_match(fn_) if fn_ else None
+        if mm is None:
+            t7.missing_anchor(f"impl {trait_.split('::')[-1]} for Num")
+            continue
+        for a in mm["arms"]:
+            alts = a["pat"]["pats"] if a["pat"]["k"] == "Or" else [a["pat"]]
+            used = {n["path"]["id"] for n in find([a["body"], a.get("guard")], lambda n: n.get("k") == "Path" and "local" in n["path"])}
+            for alt in alts:
+                if alt["k"] != "Tuple" or len(alt["pats"]) != 2:
+                    continue
+                for pos, side in enumerate(alt["pats"]):
+                    while side.get("k") in ("Ref", "Deref", "Box"):
+                        side = side["pat"]
+                    if side.get("k") != "TupleStruct" or not str((side.get("path") or {}).get("def", "")).startswith(NUM + "::"):
+                        continue
+                    ids = {b_["id"] for b_ in find(side, lambda n: n.get("k") == "Bind")}
+                    ok = bool(ids & used)
+                    t7.examined((meth, a["sp"], pos), True, {"method": meth, "operand": ["left", "right"][pos], "representation": side["path"]["def"].split("::")[-1], "value_used": ok})
+                    if not ok:
+                        t7.violate(f"ignored/{meth}/{side['path']['def'].split('::')[-1]}/{pos}", f"`{meth}` for numbers has an arm that matches a {side['path']['def'].split('::')[-1]} operand but ignores its value: the pair is decided from the other operand alone (e.g. by its sign), which is wrong when both values are close", where=a["sp"])
+    rules.append(t7.finish())
+
     explanation = ("Transitivity and totality over all values are value-level; decided here as finite tables over variant pairs extracted from the typed HIR by pattern semantics "
                    "(no execution): Ord/PartialEq/Hash of Val and Num are mutually consistent, the float hash normalises what float comparison merges, sorting of values is stable.")
     return finish("C08", "other", rules, t0, tier, explanation, ["num-bigint's Ord/Eq and f64::total_cmp are correct", "IndexMap uses Hash+Eq of the key correctly"])
